@@ -229,6 +229,11 @@ Definition tr_WriteFloat64 (data : Z) (tag : Z) (out : list N) : ctl (list N) (l
     let out := out ++ (go_emit_u64 data) in let err := false in
     Return (out, err))).
 
+(* tars/protocol/codec/codec.go: func Buffer.WriteBytes *)
+Definition tr_WriteBytes (data : (list N)) (out : list N) : ctl (list N) (list N * bool) :=
+  let out := out ++ (go_emit_bytes data) in let err := false in
+    Return (out, err).
+
 Definition k_endpoint_EStaticWeight : Z := 1.
 Definition k_selector_minStaticWeightLimit : Z := 10.
 Definition k_selector_maxStaticWeightLimit : Z := 100.
@@ -1080,6 +1085,43 @@ Definition tr_doInvoke_reply (rsp_ret : Z) (rsp_desc : list N) (msg_status : Z) 
       go_tars_Error_Message := desc |})
       else Return (@GoErrNew go_tars_Error desc))
     else Next tt.
+
+Definition k_codec_MAP : Z := 8.
+(* tars/protocol/tup/tup.go: func UniAttribute.Encode, statements "^" .. "err = os.WriteInt32(int32(len(u.data)), 0)" *)
+Definition tr_tup_Encode_head (count : Z) (out : list N) : ctl ((list N) * bool) (list N * bool) :=
+  go_call (tr_WriteHead k_codec_MAP 0 out) (fun r__ => let '(out, err) := r__ in
+    bindc (if (negb (Bool.eqb err false))
+      then Return (out, err)
+      else Next out)
+    (fun out : (list N) =>
+    go_call (tr_WriteInt32 (wrapS 32 count) 0 out) (fun r__ => let '(out, err) := r__ in
+    Next (out, err)))).
+
+Definition k_codec_SimpleList : Z := 13.
+(* tars/protocol/tup/tup.go: func UniAttribute.Encode, statements "err = os.WriteString(k, 0)" .. "err = os.WriteBytes(v)" *)
+Definition tr_tup_Encode_entry (err : bool) (k : (list N)) (v : (list N)) (out : list N) : ctl ((list N) * bool) (list N * bool) :=
+  go_call (tr_WriteString k 0 out) (fun r__ => let '(out, err) := r__ in
+    bindc (if (negb (Bool.eqb err false))
+      then Return (out, err)
+      else Next out)
+    (fun out : (list N) =>
+    go_call (tr_WriteHead k_codec_SimpleList 1 out) (fun r__ => let '(out, err) := r__ in
+    bindc (if (negb (Bool.eqb err false))
+      then Return (out, err)
+      else Next out)
+    (fun out : (list N) =>
+    go_call (tr_WriteHead k_codec_BYTE 0 out) (fun r__ => let '(out, err) := r__ in
+    bindc (if (negb (Bool.eqb err false))
+      then Return (out, err)
+      else Next out)
+    (fun out : (list N) =>
+    go_call (tr_WriteInt32 (wrapS 32 (go_len v)) 0 out) (fun r__ => let '(out, err) := r__ in
+    bindc (if (negb (Bool.eqb err false))
+      then Return (out, err)
+      else Next out)
+    (fun out : (list N) =>
+    go_call (tr_WriteBytes v out) (fun r__ => let '(out, err) := r__ in
+    Next (out, err)))))))))).
 
 (* tars/transport/tarsclient.go: func connection.recv, statements "currBuffer = append(currBuffer, buffer[:n]...)" .. "for {" *)
 Definition tr_cli_recv_chunk (fuel : nat) (buffer : (list N)) (currBuffer : (list N)) (n : Z) (parse_package : list N -> Z * Z) (out : list (list N)) : ctl ((list (list N)) * (list N)) (list (list N) * unit) :=
